@@ -95,10 +95,15 @@ func hostilePayload(t *rapid.T, typ int32, w *World) ctypes.ITrxPayload {
 		}
 	case ctypes.TRX_VOTING:
 		id := hostileBytes(t, []int{0, 1, 31, 32, 32, 33}, "voteId")
+		choices := []int32{0, 1, 2, -1, -2, 100, math.MaxInt32, math.MinInt32}
 		if ks := sortedKeys(w.Open); len(ks) > 0 && pct(t, 60, "realProposal") {
-			id = w.Open[ks[0]].TxHash
+			pr := w.Open[pick(t, ks, "whichProposal")]
+			id = pr.TxHash
+			// the boundaries of this proposal's option list
+			n := int32(len(pr.Options))
+			choices = append(choices, n, n, n-1, n+1)
 		}
-		return &ctypes.TrxPayloadVoting{TxHash: id, Choice: pick(t, []int32{0, 1, 2, -1, -2, 100, math.MaxInt32, math.MinInt32}, "choice")}
+		return &ctypes.TrxPayloadVoting{TxHash: id, Choice: pick(t, choices, "choice")}
 	case ctypes.TRX_CONTRACT:
 		switch unif(t, 10, "contractData") {
 		case 0, 1, 2:
